@@ -147,9 +147,13 @@ def reachable_arrays(obj, limit=4000):
     return out
 
 
-def check_readonly(ctx, result, klass, what, foreign=False, sources=()):
-    """every array reachable from a result is read-only (for foreign exports: shares no memory with sources)."""
+def check_readonly(ctx, result, klass, what, foreign=False, sources=(), supplied=()):
+    """every array reachable from a result is read-only (for foreign exports: shares no memory with sources).
+    `supplied`: arrays the harness passed in as arguments; an operation that hands such an array back as it is (a key returned
+    unchanged) returns the caller's own object, whose flags are the caller's business."""
     for arr, path in reachable_arrays(result):
+        if any(arr is a for a in supplied):
+            continue
         if foreign:
             for s_arr in sources:
                 if s_arr.size and arr.size and np.shares_memory(arr, s_arr) and arr.flags.writeable:
@@ -350,10 +354,11 @@ _PRIVATE_INTERNAL = _re.compile(r'\._levels\.|\._loaded|\._last_accessed|\._map\
 
 
 class Outcome:
-    __slots__ = ('kind', 'value', 'note')
+    __slots__ = ('kind', 'value', 'note', 'supplied')
 
-    def __init__(self, kind, value=None, note=''):
+    def __init__(self, kind, value=None, note='', supplied=()):
         self.kind, self.value, self.note = kind, value, note
+        self.supplied = supplied  # arrays the harness itself passed as arguments
 
 
 _OPERATORS = ['op:round', 'op:neg', 'op:abs', 'op:invert', 'op:pos', 'op:add', 'op:sub', 'op:mul', 'op:truediv', 'op:eq', 'op:ne', 'op:lt',
@@ -461,7 +466,8 @@ def invoke(c, name, rng):
         res = attr(*args, **kwargs)
         if hasattr(res, '__next__'):
             res = [x for _, x in zip(range(4), res)]
-        return Outcome('value', res, note=repr((args, kwargs))[:200])
+        return Outcome('value', res, note=repr((args, kwargs))[:200],
+                       supplied=[a for a in list(args) + list(kwargs.values()) if isinstance(a, np.ndarray)])
     except Exception as e:
         return Outcome('raised', e)
 
@@ -621,11 +627,12 @@ def _check_history(case, ctx):
         # 2. arrays reachable from the result are read-only
         res = out.value
         foreign = name in _FOREIGN or (name.startswith('to_') and name not in ('to_frame', 'to_frame_he', 'to_series', 'to_pairs', 'to_frame_go'))
-        if not check_readonly(ctx, res, k2, f'{cname}.{name}({out.note})', foreign=foreign, sources=_container_arrays(c) if foreign else ()):
+        if not check_readonly(ctx, res, k2, f'{cname}.{name}({out.note})', foreign=foreign, sources=_container_arrays(c) if foreign else (),
+                              supplied=out.supplied):
             return
         # 3. a returned array that is writeable-protected must really refuse writes
         for arr, path in reachable_arrays(res)[:6]:
-            if arr.size and not foreign:
+            if arr.size and not foreign and not any(arr is a for a in out.supplied):
                 try:
                     first = (0,) * arr.ndim
                     arr[first] = arr[first]
